@@ -3,6 +3,7 @@ from .model import short, const_val
 from .roles import Roles, M_HTX, PIECEMGR, VARFILE
 from .util import (calls_to, origins, where, is_call_to, region_dominated, find_bool_split, reachable_fns, leaf_origins,
                    field_reads, field_stores, enum_switches)
+from .fields import fname, fq
 from . import k7
 from .c13 import zero_split
 
@@ -38,6 +39,7 @@ def check(ctx):
     R = Roles(prog)
     check_bucket_count(ctx, prog, R)
     check_buf_params(ctx, prog, R)
+    check_buf_amount(ctx, prog, R)
     check_unsigned_sub(ctx, prog, R)
 
 
@@ -55,13 +57,13 @@ def check_bucket_count(ctx, prog, R):
         return
     zero, nonzero = sp[0]["true"], sp[0]["false"]
     rz, rn = region_dominated(hopen, zero), region_dominated(hopen, nonzero)
-    reads = _user_fns_only(field_reads(prog, PARAMS + ".buckets_size"))
+    reads = _user_fns_only(field_reads(prog, PARAMS + "." + fname(prog, "PARAMS.buckets_size")))
     ctx.floor("stored-count-wins", "reads of params.buckets_size", len(reads), 1)
     for fn, b, pl in reads:
         ctx.check(fn.id == hopen.id and b in rz, "stored-count-wins", "param-read-only-on-creation",
                   "the caller's buckets_size parameter is read outside the creation arm of the hash-table open: an existing "
                   "map opened with other parameters would not use its stored table size", where=where(fn, b))
-    stores = field_stores(prog, "VarFileHtxCache.buckets_size")
+    stores = field_stores(prog, fq(prog, "HTXCACHE.buckets_size"))
     zs = [(fn, b, s) for fn, b, s in stores if fn.id == hopen.id and b in rz]
     ns = [(fn, b, s) for fn, b, s in stores if fn.id == hopen.id and b in rn]
     others = [(fn, b, s) for fn, b, s in stores if not (fn.id == hopen.id and (b in rz or b in rn))]
@@ -77,7 +79,7 @@ def check_bucket_count(ctx, prog, R):
     if zs:
         fn, b, s = zs[0]
         leaves = leaf_origins(prog, hopen, s["rhs"].get("a", {}), at=b)
-        from_param = any(x.kind == "param" and x.data == 4 and any(p.endswith("FileDbParams.buckets_size") for p in x.proj) for x in leaves)
+        from_param = any(x.kind == "param" and x.data == 4 and any(p.endswith(fq(prog, "PARAMS.buckets_size")) for p in x.proj) for x in leaves)
         ctx.check(from_param, "stored-count-wins", "creation-from-param", "on creation the cached bucket count is not derived from the parameter", where=where(hopen, b))
         init = calls_to(prog, hopen, target_fn=R.need("HDR_INIT_HTX"))
         if ctx.check(len(init) == 1 and init[0][0] in rz, "stored-count-wins", "init-on-creation", "header initialiser not called exactly once on the creation arm", where=where(hopen)):
@@ -117,9 +119,88 @@ def check_buf_params(ctx, prog, R):
                     if o.kind == "param" and any(p.endswith("FileDbParams." + field) for p in o.proj):
                         sinks.add((t.get("callee") or "?"))
         allowed = lambda c: c.endswith(("VarFile::with_capacity", "VarFile::with_per_mille")) or c in ("core::convert::TryInto::try_into",) \
-            or c.startswith("core::result::Result")
+            or c.startswith("core::result::Result") or c.rsplit("::", 1)[-1] in GROW_OK_CALLS
         bad = sorted(c for c in sinks if not allowed(c))
         ctx.check(not bad, "buf-param-selects-ctor", field + ":sinks", "%s also flows into %s" % (field, bad), where=where(want))
+
+
+SHRINK_CALLS = ("saturating_sub", "checked_sub", "wrapping_sub", "overflowing_sub", "min", "clamp", "checked_div", "wrapping_div", "isqrt", "ilog2")
+GROW_OK_CALLS = ("max", "into", "from", "try_into", "try_from", "unwrap_or_default", "unwrap", "expect", "unwrap_or", "next_power_of_two", "saturating_add", "clone")
+
+
+def _shrinks(c):
+    """first sub-expression of a canonical expression that can make the value smaller than its parameter, else None"""
+    if c[0] == "bin":
+        if c[1] in ("Sub", "Div", "Rem", "Shr", "BitAnd"):
+            return c
+        return _shrinks(c[2]) or _shrinks(c[3])
+    if c[0] == "call":
+        nm = c[1].rsplit("::", 1)[-1]
+        if nm in SHRINK_CALLS or nm not in GROW_OK_CALLS:
+            return c
+        for a in c[2]:
+            r = _shrinks(a)
+            if r:
+                return r
+    if c[0] in ("un", "len"):
+        return c
+    if c[0] in ("?", "c?", "call?", "var"):
+        return c
+    return None
+
+
+def _strip_grow(c):
+    while c[0] == "call" and c[1].rsplit("::", 1)[-1] in GROW_OK_CALLS and c[2]:
+        c = c[2][0]
+    return c
+
+
+def check_buf_amount(ctx, prog, R):
+    """The amount of buffering requested reaches rabuf unreduced: the buffered-file constructors hand their chunk-size /
+    chunk-count / per-mille parameters on without any operation that can lower them, and the opens compute the chunk
+    count of a `Size` setting as <size> / <the chunk size they pass> (optionally raised by `max`)."""
+    rule = "buf-amount-not-reduced"
+    n = 0
+    for fn in sorted(prog.fns.values(), key=lambda f: f.id):
+        if fn.crate != "abyssiniandb" or fn.impl_self_adt != VARFILE or fn.impl_trait is not None or fn.name not in ("with_capacity", "with_per_mille"):
+            continue
+        ctx.touch(fn)
+        cn = k7.Canon(prog, fn)
+        sites = [(b, t) for b, t in fn.calls() if (t.get("callee") or "").startswith("rabuf::RaBuf") and (t.get("callee") or "").rsplit("::", 1)[-1] == fn.name]
+        if not ctx.check(len(sites) == 1, rule, "VarFile::%s:anchor" % fn.name, "VarFile::%s does not call rabuf's %s exactly once" % (fn.name, fn.name), where=where(fn)):
+            continue
+        b, t = sites[0]
+        for i, a in enumerate(t["args"][2:], start=2):
+            c = cn.op(a, b)
+            bad = _shrinks(c)
+            n += 1
+            ctx.check(bad is None and any(v for v in k7.vars_of(c)), rule, "VarFile::%s:arg%d" % (fn.name, i),
+                      "VarFile::%s hands `%s` to rabuf instead of its (possibly raised) parameter: a requested buffer can end up with fewer chunks than asked for (one chunk makes rabuf recurse without end)"
+                      % (fn.name, k7.expr_str(c)), where=where(fn, b))
+    for field, role in (("key_buf_size", "KEY_OPEN"), ("val_buf_size", "VAL_OPEN"), ("htx_buf_size", "HTX_OPEN")):
+        fn = R.need(role)
+        cn = k7.Canon(prog, fn)
+        for b, t in fn.calls():
+            cal = t.get("callee") or ""
+            if not cal.endswith(("VarFile::with_capacity", "VarFile::with_per_mille")) or len(t["args"]) < 5:
+                continue
+            cs, amt = cn.op(t["args"][3], b), _strip_grow(cn.op(t["args"][4], b))
+            n += 1
+            is_param = lambda x, variant: x[0] == "p" and any(p.endswith("FileDbParams." + field) for p in x[2]) and any(p == "dc:" + variant for p in x[2])
+            if cal.endswith("with_capacity"):
+                ok = amt[0] == "bin" and amt[1] == "Div" and is_param(amt[2], "Size") and cs[0] == "c" and amt[3] == cs
+                ctx.check(ok, rule, field + ":Size", "the chunk count of a fixed-size %s setting is `%s`, not <size> / <chunk size passed (%s)>" % (field, k7.expr_str(amt), k7.expr_str(cs)), where=where(fn, b))
+            else:
+                ctx.check(is_param(amt, "PerMille"), rule, field + ":PerMille", "the per-mille %s setting reaches the constructor as `%s`" % (field, k7.expr_str(amt)), where=where(fn, b))
+    ctx.floor(rule, "constructor arguments checked", n, 8)
+
+
+def _canon_fields(prog, expr):
+    """triage entries are written with the field names of the pinned tree: map renamed fields back"""
+    import re
+    for role, canon in (("MGR.sizes", "size_ary"), ("MGR.heads", "free_list_offset")):
+        expr = re.sub(r"\b%s\b" % re.escape(fname(prog, role)), canon, expr)
+    return expr
 
 
 def check_unsigned_sub(ctx, prog, R):
@@ -150,9 +231,9 @@ def check_unsigned_sub(ctx, prog, R):
                 cls = "guarded@bb%d" % g[0]
             elif _is_param_sub(fn, A, B):
                 cls = _callers_guarded(ctx, prog, fn, inst)
-            elif (role_of.get(fn.id), expr) in TRIAGED_SUB:
+            elif (role_of.get(fn.id), _canon_fields(prog, expr)) in TRIAGED_SUB:
                 cls = "triaged"
-                pre_needed.add(TRIAGED_SUB[(role_of.get(fn.id), expr)][1])
+                pre_needed.add(TRIAGED_SUB[(role_of.get(fn.id), _canon_fields(prog, expr))][1])
             else:
                 cls = None
         classes[inst] = cls
@@ -164,8 +245,10 @@ def check_unsigned_sub(ctx, prog, R):
                      "(debug: panic, release: wrap) when the left side is smaller" % (expr, fn.id), where=where(fn, b),
                      expected="a dominating comparison establishing lhs >= rhs on the same operands")
     feats = prog.features.get("abyssiniandb", [])
-    # counted per configuration on the repaired tree: vu64+bitmap 28, vu64 without bitmap 26, fixed-width fields + bitmap 25
-    floor = 28 if ("vf_vu64" in feats and "htx_bitmap" in feats) else (26 if "vf_vu64" in feats else 25)
+    # counted per configuration on the repaired tree: vu64+bitmap 28, vu64 without bitmap 26, fixed-width fields + bitmap 25.
+    # The floor only guards against a vacuous pass (sites no longer recognised): it leaves room for refactors that
+    # legitimately remove a few subtractions.
+    floor = 20 if ("vf_vu64" in feats and "htx_bitmap" in feats) else (19 if "vf_vu64" in feats else 18)
     ctx.floor("unsigned-sub", "unsigned subtraction sites in the lib", n, floor)
     ctx.sample({"rule": "unsigned-sub", "classification": classes})
     from . import poscontrol
